@@ -32,17 +32,89 @@ fn rec(tid: usize, op_idx: usize, tag: Tag, call: u64, ret: u64, res: Res) {
 
 pub const UNTIMED: u64 = u64::MAX;
 
-/// Consumes up to `take` items of a chunk's values and checks the `len()` trajectory.
+thread_local! {
+    /// `Case::keep_going` of the case being run on this OS thread (engines E1 and E2 run every virtual thread here)
+    static KEEP_GOING: std::cell::Cell<bool> = const { std::cell::Cell::new(false) };
+}
+
+pub fn set_keep_going(on: bool) {
+    KEEP_GOING.with(|k| k.set(on));
+}
+
+/// How the harness uses a chunk's `values` is encoded in `take` (old replay files decode to the plain modes):
+/// * `usize::MAX - m`, m in 0..4: consume everything by m = 0 `next()` calls (checking the `len()` trajectory),
+///   1 `fold`, 2 `for_each`, 3 `collect`;
+/// * otherwise the low 16 bits are the number k of items taken by `next()`, bits 16..20 say what happens to the
+///   rest: 0 dropped with the chunk, 1 `nth` beyond the end, 2 `nth` inside, 3 `count`, 4 `last`, 5 `skip(j).next()`,
+///   6 `step_by(2)` to the end, 7 `for_each` over the rest.
+pub fn decode_take(take: usize) -> (usize, u8, u8) {
+    if take >= usize::MAX - 3 {
+        (usize::MAX, (usize::MAX - take) as u8, 0)
+    } else {
+        (take & 0xffff, 0, ((take >> 16) & 0xf) as u8)
+    }
+}
+
+pub fn encode_take(k: usize, rest_mode: u8) -> usize {
+    (k & 0xffff) | ((rest_mode as usize & 0xf) << 16)
+}
+
+/// Consumes a chunk's values as `take` says and checks the `len()` trajectory and the `Iterator` contract of
+/// the other methods used.
 fn consume_values<T: Elem>(
     begin: usize,
     mut values: impl ExactSizeIterator<Item = T>,
     take: usize,
     stash: &mut Vec<T>,
 ) -> Res {
+    let (take, full_mode, rest_mode) = decode_take(take);
     let announced = values.len();
+    // chunks of astronomic length (ranges near usize::MAX, C16) are only ever used through next() and drop
+    let (full_mode, rest_mode) = if announced > (1 << 20) { (0, 0) } else { (full_mode, rest_mode) };
+    // (size_hint() is not compared with len(): the listed properties speak about the announced length only, and
+    // the buffered chunk of a wrapped iterator keeps the default size_hint of (0, None) - see DESIGN 7)
+    let mut len_ok = true;
+    let mut end_ok = true;
+    let mut tail: Vec<(usize, ItemRec)> = vec![];
+    if take >= announced && full_mode != 0 {
+        // everything, through one of the internal-iteration methods
+        let mut items: Vec<ItemRec> = Vec::with_capacity(announced.min(64));
+        match full_mode {
+            1 => {
+                let n = values.fold(0usize, |a, v| {
+                    items.push(v.rec());
+                    stash.push(v);
+                    a + 1
+                });
+                end_ok = n == announced;
+            }
+            2 => values.for_each(|v| {
+                items.push(v.rec());
+                stash.push(v);
+            }),
+            _ => {
+                let all: Vec<T> = values.collect();
+                for v in all {
+                    items.push(v.rec());
+                    stash.push(v);
+                }
+            }
+        }
+        if items.len() != announced {
+            end_ok = false;
+        }
+        return Res::Chunk {
+            begin,
+            announced,
+            items,
+            len_ok,
+            end_ok,
+            fully_consumed: true,
+            tail,
+        };
+    }
     let want = take.min(announced);
     let mut items: Vec<ItemRec> = Vec::with_capacity(want.min(64));
-    let mut len_ok = true;
     let mut got = 0usize;
     while got < want {
         match values.next() {
@@ -58,7 +130,6 @@ fn consume_values<T: Elem>(
         }
     }
     let fully = take >= announced;
-    let mut end_ok = true;
     if fully {
         // the chunk must be exhausted exactly after `announced` items
         if got != announced {
@@ -68,8 +139,81 @@ fn consume_values<T: Elem>(
             items.push(extra.rec());
             stash.push(extra);
         }
+        drop(values);
+    } else {
+        let rem = announced - got;
+        match rest_mode {
+            1 => {
+                // beyond the end: nothing comes back, everything left is the chunk's to drop
+                if let Some(v) = values.nth(rem + (begin & 1)) {
+                    end_ok = false;
+                    stash.push(v);
+                }
+                if values.len() != 0 || values.next().is_some() {
+                    len_ok = false;
+                }
+            }
+            2 | 5 => {
+                let j = (begin.wrapping_mul(7).wrapping_add(got).wrapping_add(3)) % rem;
+                let r = if rest_mode == 2 {
+                    let r = values.nth(j);
+                    if values.len() != rem - j - 1 {
+                        len_ok = false;
+                    }
+                    r
+                } else {
+                    let mut s = values.skip(j);
+                    let r = s.next();
+                    if s.count() != rem - j - 1 {
+                        len_ok = false;
+                    }
+                    r
+                };
+                match r {
+                    Some(v) => {
+                        tail.push((got + j, v.rec()));
+                        stash.push(v);
+                    }
+                    None => end_ok = false,
+                }
+            }
+            3 => {
+                if values.count() != rem {
+                    len_ok = false;
+                }
+            }
+            4 => match values.last() {
+                Some(v) => {
+                    tail.push((announced - 1, v.rec()));
+                    stash.push(v);
+                }
+                None => end_ok = false,
+            },
+            6 => {
+                let mut n = 0usize;
+                for (i, v) in values.step_by(2).enumerate() {
+                    tail.push((got + 2 * i, v.rec()));
+                    stash.push(v);
+                    n += 1;
+                }
+                if n != (rem + 1) / 2 {
+                    end_ok = false;
+                }
+            }
+            7 => {
+                let mut n = 0usize;
+                values.for_each(|v| {
+                    tail.push((got + n, v.rec()));
+                    stash.push(v);
+                    n += 1;
+                });
+                if n != rem {
+                    end_ok = false;
+                }
+            }
+            _ => drop(values),
+        }
     }
-    drop(values);
     Res::Chunk {
         begin,
         announced,
@@ -77,6 +221,7 @@ fn consume_values<T: Elem>(
         len_ok,
         end_ok,
         fully_consumed: fully,
+        tail,
     }
 }
 
@@ -400,16 +545,27 @@ where
                         fn drop(&mut self) {
                             for _ in 0..self.k {
                                 hooks::op_begin(self.tid);
-                                let res = match self.it.next() {
-                                    Some(v) => {
+                                // the pull itself may panic (injected fault in the wrapped iterator or a clone):
+                                // a destructor that catches it is legal while its thread is already unwinding
+                                let it = self.it;
+                                let res = match catch_unwind(AssertUnwindSafe(|| it.next())) {
+                                    Ok(Some(v)) => {
                                         let r = v.rec();
                                         self.stash.push(v);
                                         Res::One { idx: None, item: r }
                                     }
-                                    None => Res::End,
+                                    Ok(None) => Res::End,
+                                    Err(p) => {
+                                        hooks::panic_end();
+                                        let msg = match p.downcast_ref::<&str>() {
+                                            Some(s) if *s == INJECTED => INJECTED.to_string(),
+                                            _ => panic_msg(&p),
+                                        };
+                                        Res::Panicked(msg)
+                                    }
                                 };
                                 let (c, r) = hooks::op_end(self.tid);
-                                let end = matches!(res, Res::End);
+                                let end = matches!(res, Res::End | Res::Panicked(_));
                                 rec(self.tid, self.op_idx, Tag::Next, c, r, res);
                                 if end {
                                     break;
@@ -515,6 +671,10 @@ where
                 _ => Tag::LowLevel,
             };
             rec(tid, op_idx, tag, c, r, Res::Panicked(msg));
+            if KEEP_GOING.with(|k| k.get()) {
+                // the caller caught the panic and goes on using the same iterator and buffered handle
+                continue;
+            }
             // a panicking thread ends here, like a thread of `std::thread::scope` would
             return false;
         }
@@ -539,7 +699,11 @@ where
             let mut total = None;
             let bound = len.saturating_add(64);
             loop {
-                if items.len() >= take || items.len() > bound {
+                if items.len() > bound {
+                    break;
+                }
+                // a remainder that claims more items than the source ever had is pulled until that is on record
+                if items.len() >= take && s.size_hint().0 <= bound {
                     break;
                 }
                 match s.next() {
@@ -553,7 +717,13 @@ where
                     }
                 }
             }
-            drop(s);
+            if items.len() > bound {
+                // longer than the source: a violation for the remainder oracle; dropping an iterator that believes
+                // to hold up to usize::MAX zero-sized elements would never return
+                std::mem::forget(s);
+            } else {
+                drop(s);
+            }
             TermRes::Seq { items, total }
         }
     }));
